@@ -193,8 +193,7 @@ func protoPre(ps []Pre) []*schema.Precondition {
 }
 
 // exec runs one abstract operation on the real database and projects the result.
-func exec(db database.DB, op *Op) (Res, string) {
-	ctx := context.Background()
+func exec(ctx context.Context, db database.DB, op *Op) (Res, string) {
 	res := Res{Ents: []Ent{}}
 	var err error
 	hdr := func(h *schema.TxHeader, e error) {
@@ -576,11 +575,13 @@ type epochCfg struct {
 	Compact    bool
 	CompactDly int
 	BulkSize   int
+	SyncMs     int    // sync frequency (ms) of a synced store
+	Kind       string // random | race | snap
 }
 
 func (e epochCfg) String() string {
-	return fmt.Sprintf("synced=%v node=%d flush=%d renew=%dms maint=%v compact=%v cdelay=%dms bulk=%d", e.Synced, e.NodeSize, e.FlushThld,
-		e.RenewMs, e.Maint, e.Compact, e.CompactDly, e.BulkSize)
+	return fmt.Sprintf("kind=%s synced=%v sync=%dms node=%d flush=%d renew=%dms maint=%v compact=%v cdelay=%dms bulk=%d", e.Kind, e.Synced, e.SyncMs,
+		e.NodeSize, e.FlushThld, e.RenewMs, e.Maint, e.Compact, e.CompactDly, e.BulkSize)
 }
 
 func main() {
@@ -594,6 +595,8 @@ func main() {
 	compact := flag.Bool("compact", true, "let the maintenance goroutine call CompactIndex")
 	minOps := flag.Int("minops", 40, "min ops per window")
 	maxOps := flag.Int("maxops", 60, "max ops per window")
+	raceRounds := flag.Int("race-rounds", 0, "extra database instance (synced, long sync period): rounds of conflicting conditional writes started together")
+	snapWindows := flag.Int("snap-windows", 0, "extra database instance: windows of multi-key readers (GetAll / Scan) against tight-loop multi-key writers")
 	repro := flag.String("repro", "", "run a minimal reproduction instead (compaction | refget)")
 	flag.Parse()
 	if *repro != "" {
@@ -633,21 +636,31 @@ func main() {
 			Compact:    *compact && epoch%2 == 0,
 			CompactDly: []int{0, 1, 10}[rng.Intn(3)],
 			BulkSize:   1,
+			SyncMs:     1,
+			Kind:       "random",
 		}
 		runEpoch(res, emit, *seed, epoch, win, nw, ncl, cfg, filepath.Join(*dir, fmt.Sprintf("e%d", epoch)), *minOps, *maxOps)
 		win += nw
 	}
+	epoch := 1000
+	if *raceRounds > 0 {
+		win += runRaceEpoch(res, emit, *seed, epoch, win, *raceRounds, filepath.Join(*dir, "race"))
+		epoch++
+	}
+	if *snapWindows > 0 {
+		win += runSnapEpoch(res, emit, *seed, epoch, win, *snapWindows, filepath.Join(*dir, "snap"))
+	}
 	vh.Must(w.Flush(), "flush trace")
 	vh.Must(f.Close(), "close trace")
-	res.Traces = *windows
+	res.Traces = win
 	res.Emit()
 }
 
-func runEpoch(res *vh.Result, emit func(Event), seed int64, epoch, win0, nw, ncl int, cfg epochCfg, dir string, minOps, maxOps int) {
+func openDB(cfg epochCfg, dir string, epoch int) database.DB {
 	os.RemoveAll(dir)
 	vh.Must(os.MkdirAll(dir, 0o755), "mkdir")
-	so := store.DefaultOptions().WithSynced(cfg.Synced).WithSyncFrequency(time.Millisecond).WithMaxConcurrency(32).WithMaxKeyLen(96).WithMaxValueLen(256).
-		WithLogger(logger.NewMemoryLoggerWithLevel(logger.LogError))
+	so := store.DefaultOptions().WithSynced(cfg.Synced).WithSyncFrequency(time.Duration(cfg.SyncMs) * time.Millisecond).WithMaxConcurrency(32).
+		WithMaxKeyLen(96).WithMaxValueLen(256).WithLogger(logger.NewMemoryLoggerWithLevel(logger.LogError))
 	so.WithIndexOptions(so.IndexOpts.WithMaxNodeSize(cfg.NodeSize).WithFlushThld(cfg.FlushThld).WithSyncThld(cfg.FlushThld * 4).WithCompactionThld(1).
 		WithRenewSnapRootAfter(time.Duration(cfg.RenewMs) * time.Millisecond).WithDelayDuringCompaction(time.Duration(cfg.CompactDly) * time.Millisecond).
 		WithCacheSize(1 << 20).WithFlushBufferSize(1 << 14).WithMaxBulkSize(cfg.BulkSize))
@@ -655,10 +668,59 @@ func runEpoch(res *vh.Result, emit func(Event), seed int64, epoch, win0, nw, ncl
 	tOpen := time.Now()
 	db, err := database.NewDB("db", nil, opts, logger.NewMemoryLoggerWithLevel(logger.LogError))
 	vh.Must(err, "NewDB")
-	dbg := os.Getenv("C06_DEBUG") != ""
-	if dbg {
+	if os.Getenv("C06_DEBUG") != "" {
 		fmt.Fprintf(os.Stderr, "epoch %d: NewDB %v (%s)\n", epoch, time.Since(tOpen), cfg)
 	}
+	return db
+}
+
+// audit is the read-everything-back window at the end of a database instance (not counted): no maintenance, one client
+// reads the complete history of every key, full scans, both sorted sets.  TLC judges it like any other window: a rejection
+// here means the index no longer agrees with the committed log (persistent damage, not a transient stale read).
+func audit(res *vh.Result, emit func(Event), db database.DB, cid, epoch int, seq *int64, pendingMaint []Event) {
+	var ops []*Op
+	blank := func() *Op { return &Op{KVs: []KV{}, Keys: []string{}, Pre: []Pre{}, Ops: []XOp{}} }
+	for _, k := range keys {
+		o := blank()
+		o.T, o.K = "Hist", k
+		ops = append(ops, o)
+		g := blank()
+		g.T, g.K, g.Mode = "Get", k, "def"
+		ops = append(ops, g)
+	}
+	for _, desc := range []bool{false, true} {
+		o := blank()
+		o.T, o.Desc = "Scan", desc
+		ops = append(ops, o)
+	}
+	for _, z := range sets {
+		o := blank()
+		o.T, o.Set = "ZScan", z
+		ops = append(ops, o)
+	}
+	o := blank()
+	o.T = "Count"
+	ops = append(ops, o)
+	aw := 100000 + epoch
+	for _, e := range pendingMaint {
+		e.W, e.Epoch = aw, epoch
+		emit(e)
+	}
+	for _, op := range ops {
+		s0 := atomic.AddInt64(seq, 1)
+		r, msg := exec(context.Background(), db, op)
+		s1 := atomic.AddInt64(seq, 1)
+		rr := r
+		emit(Event{Ev: "Call", C: cid, Seq: s0, Op: op, Res: &rr, W: aw, Epoch: epoch})
+		emit(Event{Ev: "Ret", C: cid, Seq: s1, Res: &rr, Msg: msg, W: aw, Epoch: epoch})
+		res.Count("audit:"+op.T+":"+r.E, 1)
+	}
+	emit(Event{Ev: "Cut", W: aw, Epoch: epoch})
+}
+
+func runEpoch(res *vh.Result, emit func(Event), seed int64, epoch, win0, nw, ncl int, cfg epochCfg, dir string, minOps, maxOps int) {
+	db := openDB(cfg, dir, epoch)
+	dbg := os.Getenv("C06_DEBUG") != ""
 	emit(Event{Ev: "Reset", Epoch: epoch, W: win0, Clients: ncl, Cfg: cfg.String()})
 
 	var seq int64
@@ -742,7 +804,7 @@ func runEpoch(res *vh.Result, emit func(Event), seed int64, epoch, win0, nw, ncl
 				for i := 0; i < n; i++ {
 					op := c.gen()
 					s0 := atomic.AddInt64(&seq, 1)
-					r, msg := exec(db, op)
+					r, msg := exec(context.Background(), db, op)
 					s1 := atomic.AddInt64(&seq, 1)
 					rr := r
 					c.evs = append(c.evs, Event{Ev: "Call", C: c.id, Seq: s0, Op: op, Res: &rr}, Event{Ev: "Ret", C: c.id, Seq: s1, Res: &rr, Msg: msg})
@@ -788,57 +850,10 @@ func runEpoch(res *vh.Result, emit func(Event), seed int64, epoch, win0, nw, ncl
 	}
 	close(stop)
 	mwg.Wait()
-	// audit window (not counted): maintenance has stopped, one client reads everything back - the complete history of every
-	// key, full scans, both sorted sets.  TLC judges it like any other window: a rejection here means the index no longer
-	// agrees with the committed log (persistent damage, not a transient stale read).
-	{
-		c := clients[0]
-		c.evs = c.evs[:0]
-		var ops []*Op
-		blank := func() *Op { return &Op{KVs: []KV{}, Keys: []string{}, Pre: []Pre{}, Ops: []XOp{}} }
-		for _, k := range keys {
-			o := blank()
-			o.T, o.K = "Hist", k
-			ops = append(ops, o)
-			g := blank()
-			g.T, g.K, g.Mode = "Get", k, "def"
-			ops = append(ops, g)
-		}
-		for _, desc := range []bool{false, true} {
-			o := blank()
-			o.T, o.Desc = "Scan", desc
-			ops = append(ops, o)
-		}
-		for _, z := range sets {
-			o := blank()
-			o.T, o.Set = "ZScan", z
-			ops = append(ops, o)
-		}
-		o := blank()
-		o.T = "Count"
-		ops = append(ops, o)
-		aw := 100000 + epoch
-		for _, e := range func() []Event {
-			mmu.Lock()
-			defer mmu.Unlock()
-			x := append([]Event{}, mevs...)
-			mevs = mevs[:0]
-			return x
-		}() {
-			e.W, e.Epoch = aw, epoch
-			emit(e)
-		}
-		for _, op := range ops {
-			s0 := atomic.AddInt64(&seq, 1)
-			r, msg := exec(db, op)
-			s1 := atomic.AddInt64(&seq, 1)
-			rr := r
-			emit(Event{Ev: "Call", C: c.id, Seq: s0, Op: op, Res: &rr, W: aw, Epoch: epoch})
-			emit(Event{Ev: "Ret", C: c.id, Seq: s1, Res: &rr, Msg: msg, W: aw, Epoch: epoch})
-			res.Count("audit:"+op.T+":"+r.E, 1)
-		}
-		emit(Event{Ev: "Cut", W: aw, Epoch: epoch})
-	}
+	mmu.Lock()
+	rest := append([]Event{}, mevs...)
+	mmu.Unlock()
+	audit(res, emit, db, clients[0].id, epoch, &seq, rest)
 	vh.Must(db.Close(), "close db")
 	res.Distinct += nw
 	os.RemoveAll(dir)
